@@ -59,7 +59,7 @@ StoreCxx(m) == Sc({Twelve}, "store", "cxx", [maxops |-> m]) \cup Sc({Twelve}, "s
 (* long chains of modify / advance with one kind of modify: the cycle index wraps, cycles are reused *)
 DeepMods == {<<0, 0, 0, 1, "d", 0>>}
 StoreDeep(m) == UNION {Sc({Twelve}, "store", d, [maxops |-> m, lim |-> l, mods |-> DeepMods]) : d \in {"c", "cxx"}, l \in {0, 1, 2, 3}}
-CloneMods == {<<0, 0, 0, 1, "d", 0>>, <<1, 0, 1, 1, "d", 0>>}
+CloneMods == {<<0, 0, 0, 1, "d", 0>>, <<0, 0, 0, 2, "d", 0>>, <<1, 0, 1, 1, "d", 0>>}
 StoreClone(m) == Sc({Twelve}, "store", "cxx", [maxops |-> m, mods |-> CloneMods, clone |-> TRUE])
                  \cup Sc({Twelve}, "store", "c", [maxops |-> 3, mods |-> CloneMods, clone |-> TRUE])
 ModQ == {<<0, 0, 0, 2, "d", 0>>, <<1, 0, 1, 1, "d", 0>>, <<0, 0, 0, 1, "f", 0>>, <<0, 2, 0, 1, "d", 1>>, <<1, 1, 0, 1, "d", 0>>, <<2, 0, 0, 1, "d", 0>>}
